@@ -112,6 +112,10 @@ Resample(i, n) == LET o == objs[i]
                                [op |-> "Resample", a |-> i, n |-> n])
 
 AssignTimes(i, g) == Mutate(i, Fresh(g, objs[i].comps), [op |-> "AssignTimes", a |-> i, g |-> g])
+(* `sig.times += d`: the array is changed in place and the very same object is assigned back; the grid moves, the
+   function's own time origin does not (unlike shift) *)
+AugTimes(i, d) == LET o == objs[i] IN
+    Mutate(i, Fresh([n \in 1..Len(o.g) |-> o.g[n] + d], o.comps), [op |-> "AugTimes", a |-> i, d |-> d])
 
 (* operations returning a new object *)
 Make(o2, rec) == /\ Len(objs) < MaxObjs /\ Exact(o2)
@@ -140,6 +144,7 @@ Next == \/ \E g \in Grids, fn \in Fns : New(g, fn)
         \/ \E i \in 1..Len(objs), ld \in Buffers, f \in BOOLEAN : SetBuffersFail(i, ld, f)
         \/ \E i \in 1..Len(objs), n \in Resamples : Resample(i, n)
         \/ \E i \in 1..Len(objs), g \in Grids : AssignTimes(i, g)
+        \/ \E i \in 1..Len(objs), d \in Shifts : AugTimes(i, d)
         \/ \E i \in 1..Len(objs) : Copy(i)
         \/ \E i \in 1..Len(objs), k \in Scales : Mul(i, k)
         \/ \E i \in 1..Len(objs), g \in Grids : WithTimes(i, g)
@@ -150,7 +155,7 @@ Spec == Init /\ [][Next]_vars
 NoStale == \A i \in 1..Len(objs) : objs[i].cache # <<>> => objs[i].cache[1] = Eval(objs[i])
 ReadIsEager == last.op = "Read" => last.res = last.fresh
 (* a new object is independent of its operands: operations on one never change the other's meaning *)
-Target == IF last'.op \in {"Shift", "IMul", "IDiv", "Filter", "SetBuffers", "SetBuffersFail", "Resample", "AssignTimes", "Read"}
+Target == IF last'.op \in {"Shift", "IMul", "IDiv", "Filter", "SetBuffers", "SetBuffersFail", "Resample", "AssignTimes", "AugTimes", "Read"}
           THEN {last'.a} ELSE {}
 Independent == [][\A i \in 1..Len(objs) : i \notin Target => Eval(objs'[i]) = Eval(objs[i])]_vars
 =============================================================================
